@@ -605,6 +605,8 @@ def check(ctx, R):
     R.run("C02.b2", rule_b2, ctx)
     R.run("C02.b3", rule_b3, ctx)
     R.run("C02.b4", rule_b4, ctx)
+    from . import accessors
+    R.run("C02.b5", lambda R, c: accessors.state_vector_ops(R, c, "C02.b5"), ctx)
     R.run("C02.c", rule_c, ctx)
     R.run("C02.d", rule_d, ctx)
     R.run("C02.f", rule_f, ctx)
